@@ -132,6 +132,32 @@ pub fn check(c: &Case) -> CheckResult {
             // points within half a width of the polyline, which lies within the flattening tolerance of the curve; bevels
             // and miters at a tight bend depend on where the flattening puts its vertices)
             let curved = p.has_curves();
+            // dashed polylines: the 'on' pieces of C09's arc-length model, stroked as open polylines (margin 0.75 px;
+            // not judged when a dash boundary falls within rounding of a vertex)
+            if !st.dash.is_empty() && !curved && st.width.0 > 0.0 && xf_det(&c.xf) != 0.0 && st.offset.0.abs() < 1.0e4 {
+                let polys = crate::stroke_model::polylines(p, 0.01);
+                let dashes: Vec<f32> = st.dash.iter().map(|d| d.0).collect();
+                if dashes.iter().all(|d| *d >= 0.0 && d.is_finite()) {
+                    if let Some(dm) = super::c09::dash_model(&polys, &dashes, st.offset.0) {
+                        if !dm.boundary_near_vertex {
+                            let pieces: Vec<crate::stroke_model::Poly> = dm.pieces.iter().map(|d| crate::stroke_model::Poly { pts: d.poly.pts.clone(), closed: d.poly.closed }).collect();
+                            if let Some(v) = crate::stroke_model::verdicts(&pieces, st.width.0 as f64, st.cap, st.join, st.miter.0 as f64, &c.xf, w, h, 0.75) {
+                                let mut extra = 0;
+                                for i in 0..n {
+                                    if v[i] == 0 {
+                                        if !z[i] {
+                                            extra += 1;
+                                        }
+                                        z[i] = true;
+                                    }
+                                }
+                                o.class_if(extra > 0, "zero-coverage-from-dash-model-only");
+                                o.class("shape-coverage:dash-model");
+                            }
+                        }
+                    }
+                }
+            }
             if st.dash.is_empty() && (!curved || st.join == 1) && st.width.0 > 0.0 && xf_det(&c.xf) != 0.0 {
                 let unit = (xf_det(&c.xf).abs()).sqrt().max(1e-6);
                 let polys = crate::stroke_model::polylines(p, 0.01 / unit);
